@@ -1,18 +1,90 @@
 (* C06 - parallel tests that share a snapshot file are serialisable.
-   (placeholder slice: the lock-discipline model and the serialisability theorem live in
-   Model/Sched.v / Proofs/SchedP.v; see below) *)
-From Coq Require Import List NArith Bool Lia.
+   Model/Sched.v is a micro-step model of the lock and file-system operations of concurrent
+   MatchSnapshot-style calls (events ERLock ERUnlock ELock EUnlock ERead EMkdir EOpen EAppend ETrunc
+   EWrite, an RW lock, one shared file); the Repaired protocol is what the code does after fix
+   fd7d6be, the Pinned one what it did before (append without the lock). *)
+From Coq Require Import List NArith Bool Lia Permutation.
 Import ListNotations.
-From Snaps Require Import Base.Bytes Base.Lines Model.Frame.
-From Snaps Require Import Proofs.BytesP Proofs.LinesP Proofs.FrameP Proofs.IsolationP.
+From Snaps Require Import Base.Bytes Base.Lines Model.Frame Model.Sched Model.SchedSpec.
+From Snaps Require Import Proofs.BytesP Proofs.LinesP Proofs.FrameP Proofs.IsolationP Proofs.SchedP.
 
-(* the sequential core every interleaving argument rests on: a write section of slot tid leaves
-   every other slot's replay value unchanged (collision-free, entry-structured file) *)
-Theorem C06_write_sections_commute_on_other_slots : forall tid snap tid' es,
-  Forall wf_entry es -> wf_entry (tid, snap) ->
-  no_collision tid es -> no_collision tid' es -> ~ In tid' (split_nl snap) ->
-  tid <> [] -> tid <> endseq -> tid' <> [] -> tid' <> endseq -> tid' <> tid ->
-  option_map fst (get_prev tid' (update_entry tid snap (render es))) =
-  option_map fst (get_prev tid' (render es)).
-Proof. exact update_isolation. Qed.
-Print Assumptions C06_write_sections_commute_on_other_slots.
+(* For ANY number of goroutines, ANY number of calls each, and EVERY schedule (interleaving at every
+   lock and file-system operation) that runs the repaired protocol to completion from an
+   entry-structured, collision-free file with pairwise distinct slots:
+   (a) every call gets the outcome it gets when run alone (hence in any serial order);
+   (b) the final file is a rendering of well-formed entries in which every added/updated slot holds its
+       text, every other header replays what it replayed initially, and the ids are those of the initial
+       file followed by the added ones, each exactly once - nothing lost, duplicated or torn;
+   (c) the order of linearisation points is a serial order of whole calls that yields the same bytes
+       and the same outcomes. *)
+Theorem C06_serialisable : forall (es0 : list entry) (f0 : option bytes) (prog : list (list call))
+        (sch : list nat) (c : cfg),
+  content f0 = render es0 ->
+  Forall wf_entry es0 ->
+  no_collisions (map cl_tid (concat prog)) es0 ->
+  NoDup (map cl_tid (concat prog)) ->
+  Forall (ok_call (map cl_tid (concat prog))) (concat prog) ->
+  run_sched Repaired (init_cfg f0 prog) sch = Some c ->
+  finished c = true ->
+  let L := lin_order Repaired (init_cfg f0 prog) sch in
+  let es' := es_of es0 (map snd L) in
+  outcomes c = map (map (fun k => snd (run_alone Repaired f0 k))) prog /\
+  outcomes c = map (map (spec_outcome es0)) prog /\
+  content (final_file c) = render es' /\
+  Forall wf_entry es' /\
+  (forall k, In k (concat prog) ->
+             spec_outcome es0 k = OAdded \/ spec_outcome es0 k = OUpdated ->
+             lookup_entry (cl_tid k) es' = Some (cl_snap k)) /\
+  (forall h, (forall k, In k (concat prog) -> is_writer es0 k = true -> cl_tid k <> h) ->
+             lookup_entry h es' = lookup_entry h es0) /\
+  (exists added, map fst es' = map fst es0 ++ added /\
+                 Permutation added (map cl_tid (filter (is_added es0) (concat prog)))) /\
+  (forall g pg, nth_error prog g = Some pg -> proj g L = pg) /\
+  content (fst (run_serial Repaired f0 L)) = content (final_file c) /\
+  group_outcomes (length prog) (snd (run_serial Repaired f0 L)) = outcomes c.
+Proof. exact serialisable. Qed.
+Print Assumptions C06_serialisable.
+
+(* the lock discipline: while a goroutine is between Lock and Unlock no other goroutine is inside a
+   read section or a write section *)
+Theorem C06_mutual_exclusion : forall c0 sch c g t g' t',
+  quiescent c0 ->
+  run_sched Repaired c0 sch = Some c ->
+  nth_error (g_threads c) g = Some t -> holds_w t = true ->
+  nth_error (g_threads c) g' = Some t' -> g' <> g ->
+  holds_r t' = false /\ holds_w t' = false.
+Proof. exact mutual_exclusion. Qed.
+Print Assumptions C06_mutual_exclusion.
+
+(* no deadlock: an unfinished reachable configuration always has an enabled goroutine *)
+Theorem C06_progress : forall c0 sch c,
+  quiescent c0 -> run_sched Repaired c0 sch = Some c -> finished c = false ->
+  exists g c', sched_step Repaired c g = Some c'.
+Proof. exact repaired_progress. Qed.
+Print Assumptions C06_progress.
+
+(* the pinned protocol (append without the lock) violates the property: finding F4 *)
+Theorem C06_pinned_refuted :
+  exists c,
+    run_sched Pinned (init_cfg ex_file ex_prog) ex_sched_lost = Some c /\
+    finished c = true /\
+    outcomes c = [[OUpdated]; [OAdded]] /\
+    final_file c = Some (frame ex_tidA ex_new) /\
+    get_prev ex_tidB (content (final_file c)) = None.
+Proof. exact pinned_refuted. Qed.
+Theorem C06_pinned_refuted_torn :
+  exists c,
+    run_sched Pinned (init_cfg ex_file ex_prog) ex_sched_torn = Some c /\
+    finished c = true /\
+    outcomes c = [[OUpdated]; [OAdded]] /\
+    final_file c = Some (frame ex_tidA ex_new ++ ex_residue) /\
+    get_prev ex_tidB (content (final_file c)) = None.
+Proof. exact pinned_refuted_torn. Qed.
+Print Assumptions C06_pinned_refuted.
+Print Assumptions C06_pinned_refuted_torn.
+
+(* counters: any interleaving of the (mutex-protected) increments gives the same totals *)
+Theorem C06_counters_commute : forall (l l' : list (nat * soutcome)),
+  Permutation l l' -> tally_of l = tally_of l'.
+Proof. exact counters_commute. Qed.
+Print Assumptions C06_counters_commute.
